@@ -708,14 +708,14 @@ def gen_state(repo):
         shells = int(ms.group(1))
     sums = re.findall(r'sum\s*\+=\s*([^;]+);', body)
     weight = '(.lit 1 1)'
-    if len(sums) != 2 or norm(sums[0]) != 'shape1.energy(&shape2)':
+    if len(sums) != 2 or norm(sums[0]).replace('&', '') != 'shape1.energy(shape2)':
         pass  # see above: TiePotential is the obligation
     else:
-        mw = re.match(r'^(.*?)\*\s*shape1\.energy\(&shape2\)$', sums[1].strip()) or \
-            re.match(r'^shape1\.energy\(&shape2\)\s*\*\s*(.*)$', sums[1].strip())
+        mw = re.match(r'^(.*?)\*\s*shape1\.energy\(&?shape2\)$', sums[1].strip()) or \
+            re.match(r'^shape1\.energy\(&?shape2\)\s*\*\s*(.*)$', sums[1].strip())
         if mw:
             weight = bexpr_or(mw.group(1), weight, 'periodic weight', notes_lj)
-        elif norm(sums[1]) == 'shape1.energy(&shape2)':
+        elif norm(sums[1]).replace('&', '') == 'shape1.energy(shape2)':
             weight = '(.lit 1 1)'
         else:
             pass
